@@ -129,3 +129,42 @@ def latin1_edit_scenario(tmp, tag):
     without_cache, _ = run_scan(root, [])
     shutil.rmtree(root, ignore_errors=True)
     return with_cache, without_cache, after, rel
+
+
+WS_BASE = b"import os\n\ndef first(a):\n    b = a\n    return b\n\n\ndef second(c):\n    return c\n"
+
+
+def whitespace_edits():
+    """(what, bytes after the edit) for edits of WS_BASE that change white space only: every one changes the BYTES, so the
+    cached entry must not be reused, and most of them change reported line numbers or columns"""
+    b = WS_BASE
+    return [("two blank lines in front", b"\n\n" + b),
+            ("a line of spaces in front", b"   \n" + b),
+            ("a blank line at the end", b + b"\n"),
+            ("the final line break removed", b[:-1]),
+            ("spaces at the end of a line", b.replace(b"b = a\n", b"b = a   \n")),
+            ("a blank line inside a function", b.replace(b"    b = a\n", b"    b = a\n\n")),
+            ("a blank line between the functions removed", b.replace(b"\n\n\ndef second", b"\n\ndef second")),
+            ("CRLF line ends", b.replace(b"\n", b"\r\n")),
+            ("a form feed in front", b"\x0c\n" + b),
+            ("deeper indentation of a body", b.replace(b"    return c", b"        return c"))]
+
+
+def edit_scenario(tmp, tag, before, after, rel="pkg/mod.py"):
+    """`rel` is scanned holding `before`, rewritten to `after`, scanned again with the cache in place, and once more without.
+    Returns (report with cache, report without cache)."""
+    root = os.path.join(tmp, f"edit_{tag}")
+    os.makedirs(os.path.join(root, os.path.dirname(rel)))
+    p = os.path.join(root, rel)
+    with open(p, "wb") as f:
+        f.write(before)
+    with open(os.path.join(root, "main.py"), "w") as f:
+        f.write("def main():\n    return 1\n")
+    run_scan(root, [])
+    with open(p, "wb") as f:
+        f.write(after)
+    with_cache, _ = run_scan(root, [])
+    shutil.rmtree(os.path.join(root, ".codelimit_cache"), ignore_errors=True)
+    without_cache, _ = run_scan(root, [])
+    shutil.rmtree(root, ignore_errors=True)
+    return with_cache, without_cache
